@@ -241,6 +241,12 @@ func goExec(line string) (out string) {
 	// the packets do not depend on the split.
 	// optional trailing "ep=<all|arm|armstream>": which entry-point form an
 	// open/verify request goes through (default: the binary streaming form)
+	// optional trailing "re=eof": scripted randomness faults return io.EOF instead of a generic error
+	if len(t) > 1 && t[len(t)-1] == "re=eof" {
+		script.ErrValue = io.EOF
+		t = t[:len(t)-1]
+		defer func() { script.ErrValue = script.ErrScripted }()
+	}
 	if len(t) > 1 && strings.HasPrefix(t[len(t)-1], "ep=") {
 		currentEP = t[len(t)-1][3:]
 		t = t[:len(t)-1]
